@@ -96,6 +96,17 @@ Proof.
   destruct n as [|n]; [lia|]. apply bparse_dict; [apply Hes|lia].
 Qed.
 
+(* nesting depth of what the messages carry *)
+Lemma vdepth_dict_le es d : Forall (fun e => vdepth (en_val e) <= d) es -> vdepth (BDict (map evv es)) <= 1 + d.
+Proof.
+  intros H. cbn [vdepth]. assert (G : fold_right (fun kv m => N.max (vdepth (snd kv)) m) 0 (map evv es) <= d); [|lia].
+  induction H as [|e r He _ IH]; cbn [map fold_right]; [lia|]. unfold evv at 1. cbn [snd]. lia.
+Qed.
+Lemma lim_ok bs v r k : bdecode bs = BOk v r k -> vdepth v <= max_bencode_depth -> bdecode_lim bs = BOk v r k.
+Proof. intros H Hd. unfold bdecode_lim. rewrite H. now replace (max_bencode_depth <? vdepth v) with false by lia. Qed.
+Lemma oent_depth b e d : vdepth (en_val e) <= d -> Forall (fun e => vdepth (en_val e) <= d) (oent b e).
+Proof. intros H. destruct b; cbn [oent]; auto. Qed.
+
 Lemma small_dec n : n < 4294967296 -> n < dec_max.
 Proof. intros H. unfold dec_max. change (10 ^ 41) with 100000000000000000000000000000000000000000. lia. Qed.
 
@@ -126,7 +137,10 @@ Proof.
   change (2 =? 0) with false. change (2 =? ExtPex) with false. change (2 =? 2) with true. cbv iota.
   replace (2 + len P - 2) with (len P) by lia. rewrite take_exact.
   assert (Hes : forall f, Forall (good_entry (S f)) es) by (intros f; apply meta_entries_good; assumption).
-  unfold P. rewrite (bdecode_entries es d Hes).
+  assert (Hdep : vdepth (BDict (map evv es)) <= max_bencode_depth).
+  { eapply N.le_trans; [apply (vdepth_dict_le es 0)|unfold max_bencode_depth; lia].
+    subst es. unfold meta_entries. repeat (apply Forall_app; split); apply oent_depth; cbn; lia. }
+  unfold P. rewrite (lim_ok _ _ _ _ (bdecode_entries es d Hes) Hdep).
   exists (ecost es 0 + 2 * len P). rewrite ext_frame_len. fold P.
   assert (Hm : decode_meta (BDict (map evv es)) =
                Some {| m_type := Some tpe; m_piece := Some piece; m_total := if total =? 0 then None else Some total |}).
@@ -292,12 +306,15 @@ Proof.
   { intros f. apply (good_se_bounded f es max_frame); [unfold max_frame; lia| |].
     - subst es. unfold pex_entries. cbv zeta. repeat (apply Forall_app; split); apply is_se_oent; key_ok.
     - unfold P, benc_d in Hlen. rewrite len_cons, len_app, len_cons, len_nil in Hlen. lia. }
-  unfold P at 1. rewrite <- (app_nil_r (benc_d (map ekv es))), (bdecode_entries es [] Hes).
+  assert (Hdep : vdepth (BDict (map evv es)) <= max_bencode_depth).
+  { eapply N.le_trans; [apply (vdepth_dict_le es 0)|unfold max_bencode_depth; lia].
+    subst es. unfold pex_entries. cbv zeta. repeat (apply Forall_app; split); apply oent_depth; cbn; lia. }
+  unfold P at 1. rewrite <- (app_nil_r (benc_d (map ekv es))), (lim_ok _ _ _ _ (bdecode_entries es [] Hes) Hdep).
   exists (ecost es 0 + 2 * len P). rewrite ext_frame_len. fold P.
   assert (Hm : decode_pex (BDict (map evv es)) = Some (a4 ++ a6, map clear_flags (d4 ++ d6))).
   { subst es. unfold pex_entries, decode_pex. cbv zeta. fold a4 a6 d4 d6. unfold oent, evv, se.
     destruct (nonempty a4) eqn:N1, (nonempty a6) eqn:N2, (nonempty d4) eqn:N3, (nonempty d6) eqn:N4;
-      cbn [app map en_key en_val fold_opt]; unfold pex_field; eval_keys; cbn [as_bytes_field];
+      cbn [app map en_key en_val fold_opt]; unfold pex_field; eval_keys; cbn [as_bytes_field is_empty_list];
       cbn [x_added x_addedf x_added6 x_added6f x_dropped x_dropped6 pexraw_zero];
       try (apply nonempty_false in N1; rewrite N1); try (apply nonempty_false in N2; rewrite N2);
       try (apply nonempty_false in N3; rewrite N3); try (apply nonempty_false in N4; rewrite N4);
@@ -380,7 +397,7 @@ Lemma fold_opt_app {A B} (f : A -> B -> option A) l1 : forall a l2,
   fold_opt f a (l1 ++ l2) = match fold_opt f a l1 with Some a' => fold_opt f a' l2 | None => None end.
 Proof. induction l1 as [|x r IH]; intros a l2; cbn [app fold_opt]; [reflexivity|]. destruct (f a x); [apply IH|reflexivity]. Qed.
 
-Ltac step_tac := unfold raw_upto; cbn [Nat.leb oent map fold_opt]; unfold evv, ie, se, me; cbn [en_key en_val]; unfold ext0_field; eval_keys.
+Ltac step_tac := unfold raw_upto; cbn [Nat.leb oent map fold_opt]; unfold evv, ie, se, me; cbn [en_key en_val]; unfold ext0_field; eval_keys; cbn [as_bytes_field is_empty_list].
 
 Lemma fold_chain {A B} (f : A -> B -> option A) a l1 l2 a1 :
   fold_opt f a l1 = Some a1 -> fold_opt f a (l1 ++ l2) = fold_opt f a1 l2.
@@ -515,7 +532,11 @@ Proof.
   replace (2 + len P <? 2) with false by lia. change (0 =? 0) with true. cbv iota.
   replace (2 + len P - 2) with (len P) by lia. rewrite take_exact.
   unfold P at 1. rewrite <- (app_nil_r (benc_d (map ekv es))).
-  rewrite (bdecode_entries_fuel es [] _ (ext0_entries_good e W)) by (rewrite app_nil_r; apply ext0_fuel).
+  assert (Hdep : vdepth (BDict (map evv es)) <= max_bencode_depth).
+  { eapply N.le_trans; [apply (vdepth_dict_le es 1)|unfold max_bencode_depth; lia].
+    subst es. unfold ext0_entries. repeat (apply Forall_app; split); apply oent_depth; try (cbn; lia).
+    unfold me. cbn [en_val]. apply (vdepth_dict_le _ 0). apply Forall_forall. intros x Hx. apply in_map_iff in Hx as [kv [<- _]]. cbn. lia. }
+  rewrite (lim_ok _ _ _ _ (bdecode_entries_fuel es [] _ (ext0_entries_good e W) ltac:(rewrite app_nil_r; apply ext0_fuel)) Hdep).
   unfold decode_ext0. subst es. rewrite (ext0_steps e W), (raw_final e W).
   exists (ecost (ext0_entries e) 0 + len P). rewrite ext_frame_len. fold P.
   replace (4 + (2 + len P)) with (6 + len P) by lia. reflexivity.
